@@ -96,7 +96,14 @@ func VerifC20TaskResult() {
 		sub.TaskResponseHash = "0xabc"
 	}
 	from := verifenv.OperatorBech[verifrt.Choice("from", 2)]
+	snap := verifrt.Snapshot(f.Ctx)
 	err := f.AVS.SetTaskResultInfo(f.Ctx, from, sub)
+	if err != nil {
+		verifrt.Assert(verifrt.SameState(f.Ctx, snap), "a rejected task result changes no store")
+	}
+	if from != verifenv.OperatorBech[0] {
+		verifrt.Assert(err != nil, "a task result signed by an account other than the operator it is attributed to is rejected")
+	}
 
 	common_ := verifrt.All(from == verifenv.OperatorBech[0], registered, hasKey, taskExists)
 	deadline1 := int64(start) + int64(respP)
